@@ -181,7 +181,7 @@ func (wl *WL) openEnv(dir string) *Env {
 				must(err)
 				e.trees[slot] = tr
 			case slotDeferred:
-				must(e.openDeferred(wl, slot))
+				must(e.openDeferred(ctx, wl, slot))
 			}
 		}
 	}
@@ -195,7 +195,7 @@ func (e *Env) buildAcl() {
 	must(err)
 }
 
-func (e *Env) openDeferred(wl *WL, slot int) error {
+func (e *Env) openDeferred(ctx context.Context, wl *WL, slot int) error {
 	st, err := e.ss.CreateStorageWithDeferredCreation(ctx, treestorage.TreeStorageCreatePayload{
 		RootRawChange: wl.roots[slot], Heads: []string{wl.roots[slot].Id}})
 	if err != nil {
